@@ -87,7 +87,10 @@ fn make_defect(ctx: &mut Ctx, rng: &mut Rng, ic: &IssuedCase, kind: &str, target
     let mut detail = json!({"kind": kind, "target": target, "target_path": sd["path"]});
     match kind {
         "arity-place" => {
-            let d = match &key { Some(_) => json!([salt, v]), None => json!([salt, "x", v]) };
+            // at an array element: a NAMED disclosure, the name ranging over the boundary strings too
+            let name = *rng.pick(&["x", "", "", " ", "0", "\u{0}", "..."]);
+            let name = if name == "..." { "x" } else { name };
+            let d = match &key { Some(_) => json!([salt, v]), None => json!([salt, name, v]) };
             tree.set_disc(target, &b64j(&d));
         }
         "name-type" => {
@@ -168,7 +171,11 @@ fn make_defect(ctx: &mut Ctx, rng: &mut Rng, ic: &IssuedCase, kind: &str, target
         }
         "sd-alg" => {
             payload_surgery = Some(Box::new(|p: &mut Value, rng: &mut Rng| {
-                let bad = rng.pick(&[json!("md5"), json!("sha-1"), json!("SHA-256"), json!(""), json!("sha256"), json!(5), json!(["sha-256"]), json!("sha-256 ")]).clone();
+                let bad = rng.pick(&[json!("md5"), json!("sha-1"), json!("SHA-256"), json!(""), json!("sha256"), json!(5), json!(["sha-256"]), json!("sha-256 "),
+                    // names a lenient parser takes for a registered one
+                    json!("sha-0256"), json!("sha-00256"), json!("sha-+256"), json!("sha-+384"), json!("sha-0512"), json!(" sha-256"), json!("sha-256\n"), json!("sha-256\u{0}"),
+                    json!("Sha-256"), json!("sha_256"), json!("sha\u{2010}256"), json!("sha-2560"), json!("sha-25"), json!("sha-256-"), json!("sha-384 "), json!("SHA-512"),
+                    json!("sha-256;sha-384"), json!("sha-224"), json!("sha3-256"), json!("sha-512/256"), json!(256), json!(null), json!(true), json!({"alg": "sha-256"})]).clone();
                 p["_sd_alg"] = bad.clone();
                 Some(json!({"_sd_alg": bad}))
             }));
@@ -286,7 +293,7 @@ pub fn run_case(ctx: &mut Ctx, case: &Value, every_target: bool) {
 }
 
 pub fn run(ctx: &mut Ctx, replay: Option<&Value>) {
-    ctx.report.rule = "reference-issued unbound tokens (Lean spec issuer) given exactly one defect, validly signed: disclosure of wrong arity for its place / not an array / arity 0,1,4; name not a string / reserved; name equal to a sibling member; a digest embedded twice; _sd not an array and placeholder with extra members (in the payload at a random object/array at any depth, and inside a disclosure's value); unsupported _sd_alg; target mark random (thorough: every mark); all disclosures presented; Verifier::verify, Holder::verify, Holder::presentation must all return Err and accept the twin; non-trivial = distinct (tree, defect kind, target)".to_string();
+    ctx.report.rule = "reference-issued unbound tokens (Lean spec issuer) given exactly one defect, validly signed: disclosure of wrong arity for its place / not an array / arity 0,1,4; name not a string / reserved; name equal to a sibling member; a digest embedded twice; _sd not an array and placeholder with extra members (in the payload at a random object/array at any depth, and inside a disclosure's value); unsupported _sd_alg (other types, unregistered names, look-alikes of the registered names: leading zeros / sign / case / blanks / unicode hyphen); target mark random (thorough: every mark); all disclosures presented; Verifier::verify, Holder::verify, Holder::presentation must all return Err and accept the twin; non-trivial = distinct (tree, defect kind, target)".to_string();
     if let Some(case) = replay {
         run_case(ctx, case, false);
         return;
